@@ -14,7 +14,7 @@
 (* first |-> the flag of begin_seq_element].                                *)
 (*                                                                         *)
 (* Render gives the text the default formatter writes for one event;       *)
-(* the refinement statement  Flatten(Render o Events(v)) = Print(v,        *)
+(* the refinement statement  Flatten(Render o Events(v)) = PrintDatum(v,        *)
 (* DefaultPrint)  ties the protocol to the documented printer (RefPrint).  *)
 (***************************************************************************)
 EXTENDS Naturals, Integers, Sequences, Text, BigNat, Sexp, RefPrint
